@@ -43,6 +43,12 @@ def View.nextNum (v : View) : Option Nat := v.ps.next.map (·.number)
 def View.lastNum (v : View) : Option Nat := v.ps.last.map (·.number)
 def View.bootingNum (v : View) : Option Nat := v.ps.booting.map (·.number)
 
+/-- The patch numbers recorded in the three slots. -/
+def slotNums (v : View) : List Nat :=
+  (match v.ps.next with | some m => [m.number] | none => []) ++
+  (match v.ps.last with | some m => [m.number] | none => []) ++
+  (match v.ps.booting with | some m => [m.number] | none => [])
+
 /-- What `current_boot_patch` reports from this disk. -/
 def View.curNum (v : View) : Option Nat :=
   match v.ps.booting with
